@@ -964,7 +964,7 @@ def _expand(h, call, caller_locals, is_method, self_expr=None, allow=()):
     free = set()
     for s in body:
         free |= _names_read(s)
-    free -= assigned | set(env)
+    free -= assigned | set(env) | set(local_names(h))       # comprehension variables / lambda parameters of the helper are its own
     if free & caller_locals:
         return None
     allow = set(allow) - _names_read(call)      # the call's own target may be clobbered: it is (re)assigned by this very statement
